@@ -30,6 +30,11 @@ def apply_edit(root, rel, old, new):
     with open(path, newline='') as f:
         raw = f.read()
     crlf = '\r\n' in raw
+    if isinstance(old, tuple) and old[0] == 'unparse':
+        import ast
+        with open(path, 'w', newline='') as f:
+            f.write(ast.unparse(ast.parse(raw)) + '\n')
+        return True
     if isinstance(old, tuple):
         # ('rename', start_marker, end_marker, name): rename an identifier between two markers (each must occur)
         import re
